@@ -919,7 +919,7 @@ func requestCase(r drv.Rand, w *emit.Writer, wd world) {
 	muts := []string{}
 	nm := []int{0, 0, 0, 0, 0, 1, 1, 1, 1, 2}[r.IntN(10)]
 	for k := 0; k < nm; k++ {
-		m := drv.Pick(r, []string{"iss", "inner_client", "both_absent", "outer_client", "aud", "response_type", "kid", "alg", "signer", "signer", "tamper", "unregister", "malformed"})
+		m := drv.Pick(r, []string{"iss", "inner_client", "both_absent", "outer_client", "impersonate", "aud", "response_type", "kid", "alg", "signer", "signer", "tamper", "unregister", "malformed"})
 		muts = append(muts, m)
 		switch m {
 		case "iss":
@@ -931,6 +931,16 @@ func requestCase(r drv.Rand, w *emit.Writer, wd world) {
 			}
 		case "both_absent":
 			iss, inner.clientID = "", ""
+		case "impersonate": // another registered client signs, with its own key and kid, and names itself as issuer
+			other := "c-beta"
+			if named == "c-beta" {
+				other = "c-alpha"
+			}
+			o := drv.Pick(r, wd.regsOf(other))
+			iss, plan.key, plan.kid, plan.alg = other, o.key, o.kid, drv.Pick(r, naturalAlgs(o.key.kind))
+			if r.Chance(1, 3) {
+				inner.clientID = ""
+			}
 		case "outer_client": // another client presents this client's object
 			outer.clientID = drv.Pick(r, []string{"c-beta", "c-alpha", "c-gamma", ""})
 		case "aud":
